@@ -83,6 +83,8 @@ func (f *Future[T]) PipeTo(forwarders vivid.ActorRefs) error {
 	f.mu.Lock()
 	if f.closed.Load() {
 		f.mu.Unlock()
+		// closed 在结果写入之前即被置位，结果仅在 done 关闭后才对其他协程可见
+		<-f.done
 		f.tellForwarders(forwarders, f.message, f.err)
 		return nil
 	}
